@@ -259,6 +259,30 @@ FINDINGS.append(
     )
 )
 
+FINDINGS.append(
+    dict(
+        id="KF-C08-folding-depends-on-output-mode",
+        property="C08",
+        also=[],
+        trigger="math_function_of_hash",
+        what="in verbose mode HASH(\"..\") is carried as the string 'HASH(\"..\")', which math.sin/cos/atan2/... cannot take, so sin(HASH(\"x\")) is folded to a literal only with compact on: the two outputs differ in instructions (and in register pressure: one mode may run out of registers), not only in tokens",
+        signatures=dict(C08=[dict(monitor="compact-differential", event={"in": ["line-count-differs", "instruction-shape-differs", "only-one-mode-compiles"]})]),
+        witness=dict(C08=dict(src=H + "db.Setting = atan2(HASH(\"O2\"), 1.5)\ndb.Mode = d0.Setting\n", options=dict(append_version=False), stream="witness")),
+    )
+)
+
+FINDINGS.append(
+    dict(
+        id="KF-C08-line-separator-in-string",
+        property="C08",
+        also=["C09"],
+        trigger="string_with_line_separator",
+        what="the finished text is re-split with str.splitlines() (remove_unused_labels, remove_labels, version note): a device name or HASH/STR string containing a form feed, U+2028, U+0085 ... is cut into two lines, so HASH(\"a<FF>b\") becomes 'HASH(\"a' + newline + 'b\")' - other text, other hash, unloadable line",
+        signatures=dict(C08=[dict(monitor="compact-differential")], C09=[dict(monitor="loader")]),
+        witness=dict(C08=dict(src=H + "db.Setting = HASH(\"a\x0cb\")\ndb.Mode = 1\n", options=dict(append_version=False), stream="witness")),
+    )
+)
+
 C16 = dict(
     id="KF-C16-intrinsic-output-register",
     property="C16",
